@@ -168,9 +168,9 @@ fn p1<const N: usize>() {
 }
 
 #[kani::proof]
-#[kani::unwind(6)]
+#[kani::unwind(7)]
 fn c08_p1_q() {
-    p1::<4>()
+    p1::<5>()
 }
 
 #[kani::proof]
@@ -209,9 +209,9 @@ fn p2<const N: usize>() {
 }
 
 #[kani::proof]
-#[kani::unwind(6)]
+#[kani::unwind(7)]
 fn c08_p2_q() {
-    p2::<4>()
+    p2::<5>()
 }
 
 #[kani::proof]
